@@ -726,6 +726,13 @@ def process_fn(repo, glob, fs, log):
                 raise VxError(f"lost anchor: {fs.name}: loop #{n_} not found ({len(loops)} loops in body)")
             at = toks[loops[n_ - 1]["close"]].start
             ed.add(at, at, "\n" + "\n".join(payload) + "\n", "E13", f"loop end #{n_}")
+        elif kw == "afterloop":
+            # ghost text inserted directly after the n-th loop's closing brace (E13)
+            n_ = int(rest.split()[0])
+            if n_ < 1 or n_ > len(loops):
+                raise VxError(f"lost anchor: {fs.name}: loop #{n_} not found ({len(loops)} loops in body)")
+            at = toks[loops[n_ - 1]["close"]].end
+            ed.add(at, at, "\n" + "\n".join(payload) + "\n", "E13", f"after loop #{n_}")
         elif kw == "loopstart":
             # ghost text inserted at the very beginning of the n-th loop's body, after the loop variable binding (E13)
             n_ = int(rest.split()[0])
